@@ -669,8 +669,12 @@ func (w *WAL) rotateSegmentLocked(indexStart uint64) error {
 		post, err := w.createNextSegment(newState)
 		return nil, post, err
 	}
+	if err := w.mutateStateLocked(txn); err != nil {
+		return err
+	}
+	// Only count rotations that were committed.
 	w.metrics.IncrementCounter("segment_rotations", 1)
-	return w.mutateStateLocked(txn)
+	return nil
 }
 
 // createNextSegment is passes a mutable copy of the new state ready to have a
@@ -768,6 +772,8 @@ func (w *WAL) resetEmptyFirstSegmentBaseIndex(newBaseIndex uint64) error {
 }
 
 func (w *WAL) truncateHeadLocked(newMin uint64) error {
+	// Number of entries removed, reported once the truncation is committed.
+	nTruncated := uint64(0)
 	txn := stateTxn(func(newState *state) (func(), func() error, error) {
 		oldLastIndex := newState.lastIndex()
 
@@ -776,7 +782,7 @@ func (w *WAL) truncateHeadLocked(newMin uint64) error {
 		toClose := make([]io.Closer, 0, 1)
 		it := newState.segments.Iterator()
 		var head *segmentState
-		nTruncated := uint64(0)
+		nTruncated = 0
 		for !it.Done() {
 			_, seg, _ := it.Next()
 
@@ -826,7 +832,6 @@ func (w *WAL) truncateHeadLocked(newMin uint64) error {
 			}
 			postCommit = pc
 		}
-		w.metrics.IncrementCounter("head_truncations", nTruncated)
 
 		// Return a finalizer that will be called when all readers are done with the
 		// segments in the current state to close and delete old segments.
@@ -837,10 +842,17 @@ func (w *WAL) truncateHeadLocked(newMin uint64) error {
 		return fin, postCommit, nil
 	})
 
-	return w.mutateStateLocked(txn)
+	if err := w.mutateStateLocked(txn); err != nil {
+		return err
+	}
+	// Only count entries of a truncation that was committed.
+	w.metrics.IncrementCounter("head_truncations", nTruncated)
+	return nil
 }
 
 func (w *WAL) truncateTailLocked(newMax uint64) error {
+	// Number of entries removed, reported once the truncation is committed.
+	nTruncated := uint64(0)
 	txn := stateTxn(func(newState *state) (func(), func() error, error) {
 		// Reverse iterate the segments to find any that are entirely deleted.
 		toDelete := make(map[uint64]uint64)
@@ -848,7 +860,7 @@ func (w *WAL) truncateTailLocked(newMax uint64) error {
 		it := newState.segments.Iterator()
 		it.Last()
 
-		nTruncated := uint64(0)
+		nTruncated = 0
 		for !it.Done() {
 			_, seg, _ := it.Prev()
 
@@ -898,7 +910,6 @@ func (w *WAL) truncateTailLocked(newMax uint64) error {
 		if err != nil {
 			return nil, nil, err
 		}
-		w.metrics.IncrementCounter("tail_truncations", nTruncated)
 
 		// Return a finalizer that will be called when all readers are done with the
 		// segments in the current state to close and delete old segments.
@@ -909,7 +920,12 @@ func (w *WAL) truncateTailLocked(newMax uint64) error {
 		return fin, pc, nil
 	})
 
-	return w.mutateStateLocked(txn)
+	if err := w.mutateStateLocked(txn); err != nil {
+		return err
+	}
+	// Only count entries of a truncation that was committed.
+	w.metrics.IncrementCounter("tail_truncations", nTruncated)
+	return nil
 }
 
 func (w *WAL) deleteSegments(toDelete map[uint64]uint64) {
